@@ -156,6 +156,12 @@ def run_dsop(w, s):
         m2 = _perturbed_model(m)
         if s.get("drop_key") and len(keys) >= 2:
             del m2.vars[keys[-1]]           # the keys overlap only partly: the result holds the common variables
+        if s.get("transpose_var"):
+            for k_ in m2.vars:              # the same variable stored with its dimensions in another order
+                if len(m2.vars[k_]["dims"]) >= 2:
+                    m2.vars[k_]["dims"] = m2.vars[k_]["dims"][::-1]
+                    m2.vars[k_]["values"] = np.ascontiguousarray(m2.vars[k_]["values"].T)
+                    break
         ds2 = _guard(lambda: _real_from_model(m2))
         if ds2[0] != "ok":
             raise Skip("second dataset")
